@@ -785,6 +785,54 @@ namespace
         }
     }
 
+    // construct-then-query table: every row binds $0.. to its cells; x, y, depth are terms over them; the point is
+    // (x, y, height - depth); distance_to_plane must return the terms "from" / "along", and the tag must be that of the
+    // feature iff the row's last cell is 1
+    void do_atable(const Value &s)
+    {
+      Handle &H = handle(s["h"].GetInt());
+      if (!H.alive || !H.world()) { ++stats.skipped_steps; return; }
+      World &w = *H.world();
+      const double rel = eval(s["rel"]), abs_ = eval(s["abs"]);
+      const std::string name = s["name"].GetString();
+      env().clear();
+      for (auto &b : s["let"].GetArray()) env()[b[0].GetString()] = eval(b[1]);
+      const auto props = get_props(s["props"]);
+      for (auto &row : s["rows"].GetArray())
+        {
+          std::vector<double> c;
+          for (auto &cell : row.GetArray()) c.push_back(eval(cell));
+          for (size_t i = 0; i < c.size(); ++i) env()["$" + std::to_string(i)] = c[i];
+          const double x = eval(s["x"]), y = eval(s["y"]), depth = eval(s["depth"]), z = eval(s["height"]) - depth;
+          const double want[2] = {eval(s["from"]), eval(s["along"])};
+          ++stats.queries;
+          try
+            {
+              const auto d = w.distance_to_plane({{x, y, z}}, depth, name);
+              const double got[2] = {d.get_distance_from_surface(), d.get_distance_along_surface()};
+              for (int k = 0; k < 2; ++k)
+                {
+                  ++stats.checks; ++stats.by_check[k == 0 ? "distance-from" : "distance-along"]; ++stats.values;
+                  if (!(std::fabs(got[k] - want[k]) <= abs_ + rel * std::max(std::fabs(got[k]), std::fabs(want[k]))))
+                    mism(k == 0 ? "distance-from" : "distance-along",
+                         "constructed point [" + fmt(x) + "," + fmt(y) + "," + fmt(z) + "," + fmt(depth) + "] (t=" + fmt(c[0]) + " km, d=" + fmt(c[1]) + " km)", k, fmt(got[k]), fmt(want[k]));
+                }
+              const std::vector<double> out = w.properties(std::array<double,3> {{x, y, z}}, depth, props);
+              double tagwant = -1;
+              // membership also needs min depth <= depth <= max depth (decided here: the constructed depth is a transcendental term)
+              const double mind = s.HasMember("mindepth") ? eval(s["mindepth"]) : 0., maxd = s.HasMember("maxdepth") ? eval(s["maxdepth"]) : 1e300;
+              if (std::fabs(depth - mind) < 1. || std::fabs(depth - maxd) < 1.) continue;
+              if (c.back() != 0. && depth >= mind && depth <= maxd)
+                for (size_t i = 0; i < w.feature_tags.size(); ++i)
+                  if (w.feature_tags[i] == s["tagname"].GetString()) tagwant = static_cast<double>(i);
+              ++stats.queries; ++stats.checks; ++stats.by_check["tagname"];
+              if (out.empty() || out[0] != tagwant)
+                mism("tagname", "constructed point (t=" + fmt(c[0]) + " km, d=" + fmt(c[1]) + " km): membership", 0, out.empty() ? "" : fmt(out[0]), fmt(tagwant));
+            }
+          catch (const std::exception &e) { mism("query", std::string("threw: ") + e.what()); }
+        }
+    }
+
     void do_size(const Value &s)
     {
       Handle &H = handle(s["h"].GetInt());
@@ -876,6 +924,7 @@ namespace
           else if (cur_op == "q") do_query(s);
           else if (cur_op == "qtable") do_qtable(s);
           else if (cur_op == "dtable") do_dtable(s);
+          else if (cur_op == "atable") do_atable(s);
           else if (cur_op == "size") do_size(s);
           else if (cur_op == "dist") do_dist(s);
           else if (cur_op == "engine") do_engine(s);
